@@ -208,9 +208,12 @@ func vh_C07_request() {
 	verifReach("end")
 }
 
-// verif: unwind=6 strlen=8 also=C19 paths=60000
+// verif: unwind=6 strlen=8 also=C19 paths=60000 tpaths=300000
 func vh_C07_response() {
 	n0 := ndChoice("name0", 2)
+	if verifThorough() {
+		n0 = ndChoice("name0t", len(vC07Names))
+	}
 	h0, v0 := vC07Config("h0", n0)
 	ctor, err := NewResponseHeaderInjector([]options.Header{h0})
 	verifAssert("C07.config-ok", err == nil)
